@@ -116,16 +116,23 @@ func collinearQuad(s hc.Seg) bool {
 	return math.Abs(a.Cross(b)) <= 1e-8*a.Len()*b.Len() && a.Dot(b) < 0
 }
 
-// wideEllipticArc: a non-circular arc (radii ratio >= 1.5) that spans at least 1.2 rad. Measured on the
-// real code (out/scratch probe, radii ratio x extent grid): ellipseLength's single 5-point
-// Gauss-Legendre rule over the whole extent exceeds 1% only inside this class (ratio 2 / 5 rad:
-// 1.1%, ratio 10 / 1.5 rad: 1.4%, ratio 10 / 6 rad: 9%); circular arcs are exact.
+// wideEllipticArc: a non-circular arc along which the speed sqrt(rx^2 sin^2 + ry^2 cos^2) varies by a
+// factor of at least 1.4. Measured on the real code (radii ratio x extent grid, out/scratch probe):
+// ellipseLength's single 5-point Gauss-Legendre rule over the whole extent exceeds 1% only inside
+// this class (ratio 2 / 5 rad: 1.1%, ratio 10 / 1.5 rad: 1.4%, ratio 10 / 6 rad: 9%); circular arcs
+// and arcs along the flat side of an ellipse (constant speed) are exact.
 func wideEllipticArc(s hc.Seg) bool {
 	if s.Kind != 'A' || eqPt(s.P0, s.End) {
 		return false
 	}
-	_, _, dth, rx, ry := hc.ArcCenter(s)
-	return math.Max(rx, ry) >= 1.5*math.Min(rx, ry) && math.Abs(dth) >= 1.2
+	_, th1, dth, rx, ry := hc.ArcCenter(s)
+	lo, hi := math.Inf(1), 0.0
+	for i := 0; i <= 64; i++ {
+		sn, cs := math.Sincos(th1 + dth*float64(i)/64)
+		v := math.Hypot(rx*sn, ry*cs)
+		lo, hi = math.Min(lo, v), math.Max(hi, v)
+	}
+	return hi >= 1.4*lo
 }
 
 // sharpBezier: the control polygon folds back (two consecutive legs at more than 90 degrees) or is
@@ -159,8 +166,9 @@ func sharpBezier(s hc.Seg) bool {
 
 // lineReversal: two consecutive straight segments (LineTo or the closing segment) run in exactly
 // opposite directions (a spur / an out-and-back subpath such as "M a L b z"). LineTo's collinear
-// merge treats such a reversal as an extension for leftward/downward lines (known finding
-// C10-lineto-merges-reversed-line), so a piece that SplitAt re-builds through LineTo loses the spur.
+// merge treated such a reversal as an extension for leftward/downward lines (C10-lineto-merges-reversed-line,
+// repaired in /repo 219108c), so a piece that SplitAt re-builds through LineTo lost the spur; the
+// predicate is kept so that a regression is named, not hidden (entry C09-splitat-line-reversal is `fixed`).
 func lineReversal(segs []hc.Seg) bool {
 	for i := 0; i+1 < len(segs); i++ {
 		a, b := segs[i], segs[i+1]
@@ -176,9 +184,9 @@ func lineReversal(segs []hc.Seg) bool {
 
 // degenerateLine: the array contains a LineTo to the current point, or a LineTo that ends exactly at
 // the subpath's start directly before its Close. The builder leaves neither behind (LineTo drops the
-// first, Close absorbs the second) except through the reversed-line merge of LineTo (known finding
-// C10-lineto-merges-reversed-line: MoveTo(5,4) .. LineTo(5,4) LineTo(3,4) LineTo(5,4) Close() gives
-// "..L5 4L5 4" and then "..L5 4z").
+// first, Close absorbs the second) except, before /repo 219108c, through the reversed-line merge of
+// LineTo (C10-lineto-merges-reversed-line: MoveTo(5,4) .. LineTo(5,4) LineTo(3,4) LineTo(5,4) Close()
+// gave "..L5 4L5 4" and then "..L5 4z"); entry C09-reverse-degenerate-line is `fixed`.
 func degenerateLine(d []float64) bool {
 	segs, err := hc.Decode(d)
 	if err != nil {
@@ -559,7 +567,48 @@ func firstLine(s string) string {
 	return s
 }
 
+// suspects are inputs of recorded findings, replayed on every run so that a stale entry is noticed
+// (the finding is reported as KNOWN-FINDING as long as the real code still fails on it).
+func suspects(c *hc.Ctx) {
+	{
+		p := canvas.MustParseSVGPath("M7.75 2.25A16.25 1.702 59.99999999999999 1 0 4 -4.246")
+		ts := []float64{2.8704965091161636, 2.973014241584598}
+		segs, _ := drawSegs(p.Data())
+		c.Evals++
+		if msg := hc.Try(func() { p.SplitAt(append([]float64{}, ts...)...) }); msg != "" {
+			c.Fail("panic:SplitAt:"+firstLine(msg)+causes(segs), "SplitAt panicked: "+firstLine(msg), map[string]any{"path": p.String(), "ts": ts})
+		} else {
+			c.Count("suspect no-longer-fails:splitat-arc-panic")
+		}
+	}
+	{
+		p := canvas.MustParseSVGPath("M-3.5 -1Q-2.415 -1 -8.25 -1")
+		segs, _ := drawSegs(p.Data())
+		c.Evals++
+		if l := p.Length(); !finite(l) {
+			c.Fail("length-not-finite:Q"+causes(segs), fmt.Sprintf("Length() = %v for %q", l, p.String()), map[string]any{"path": p.String()})
+		} else {
+			c.Count("suspect no-longer-fails:length-not-finite")
+		}
+	}
+	{
+		p := canvas.MustParseSVGPath("M0 0L10 0M0 5L10 5L10 8")
+		c.Evals++
+		var out []string
+		if msg := hc.Try(func() {
+			for _, q := range p.SplitAt(3, 12, 15) {
+				out = append(out, q.String())
+			}
+		}); msg != "" || strings.Join(out, " | ") != "M0 0L3 0 | M3 0L10 0M0 5L2 5 | M2 5L5 5 | M5 5L10 5L10 8" {
+			c.Fail("splitat-geometry+multi-subpath", fmt.Sprintf("SplitAt(3,12,15) of %q = %v %s", p.String(), out, msg), map[string]any{"path": p.String(), "ts": []float64{3, 12, 15}, "pieces": out})
+		} else {
+			c.Count("suspect no-longer-fails:splitat-multi-subpath")
+		}
+	}
+}
+
 func oracleSplitAt(c *hc.Ctx) {
+	suspects(c)
 	for it := 0; it < 2*c.N; it++ {
 		maxSubs := 1
 		if it%4 == 3 {
@@ -756,7 +805,13 @@ func oracleSplitAt(c *hc.Ctx) {
 		for _, l := range pieceTrue {
 			sumTrue += l
 		}
-		if bad == "" && math.Abs(sumTrue-T) > 1e-3*T {
+		if bad == "" && sumTrue > T*(1+1e-3) {
+			// every piece lies on the path and the path is covered, but a stretch is drawn twice: two
+			// cuts came out in the wrong order and the piece between them runs backwards
+			c.Fail("splitat-overlap"+cs, fmt.Sprintf("the pieces overlap: their total arc length is %.6g, the path's %.6g", sumTrue, T), replay)
+			continue
+		}
+		if bad == "" && sumTrue < T*(1-1e-3) {
 			bad = fmt.Sprintf("the pieces have total arc length %.6g, the path %.6g", sumTrue, T)
 		}
 		if bad != "" {
@@ -785,10 +840,11 @@ func oracleSplitAt(c *hc.Ctx) {
 		worst := ""
 		for k := 0; k < m; k++ {
 			cum += pieceTrue[k]
+			// the segment the cut belongs to: the later one of where it lies and where it was requested
 			pre, si := 0.0, 0
 			for si = 0; si < len(segs); si++ {
 				pre += segTrue[si]
-				if cum <= pre+1e-9 {
+				if cum <= pre+1e-9 && sorted[k] <= pre+1e-9 {
 					break
 				}
 			}
